@@ -195,9 +195,17 @@ class OsdStub(_SolverStub):
         sorts = [z3.RealSort()] * self.n + [z3.BoolSort()] * self.m
         c, constraint = self._solution(args, sorts, s)
         eng.assume(SymBool(constraint))
-        self.osdw_decoding = as_sa([Bit(t) for t in c])
+        out = as_sa([Bit(t) for t in c])
+        self.last_out = out
+        # ldpc runs the OSD post-processing only when it needs to (observed with ldpc 2.4.1: a zero
+        # syndrome / early BP convergence returns the decoding but leaves osdw_decoding untouched): the
+        # return value is the decoding; the osdw_decoding buffer is refreshed only if OSD ran, which is an
+        # arbitrary (symbolic) choice per call
+        ran = z3.Bool(eng.path_name(self.uid + '_osd_ran'))
+        prev = list(np.asarray(self.osdw_decoding).reshape(-1))
+        self.osdw_decoding = as_sa([Bit(z3.If(ran, t, bool_term(pv))) for t, pv in zip(c, prev)])
         eng.log.append(('BpOsdDecoder.decode', self, s, c))
-        return self.osdw_decoding
+        return out
 
 
 def validate_stub_shapes():
